@@ -12,8 +12,8 @@ CONSTANT NKeys
 Trace == ndJsonDeserialize("trace.ndjson")
 Key == 1..NKeys
 MaxTs == 2147483647
-VARIABLES pos, truth, proj, txns, held, acked, hasTruth, kind
-hvars == <<pos, truth, proj, txns, held, acked, hasTruth, kind>>
+VARIABLES pos, truth, proj, txns, held, acked, hasTruth, kind, lossless
+hvars == <<pos, truth, proj, txns, held, acked, hasTruth, kind, lossless>>
 Ev == Trace[pos]
 SetOf(q) == {q[i] : i \in 1..Len(q)}
 Ext(f, k, v) == [x \in DOMAIN f \cup {k} |-> IF x = k THEN v ELSE f[x]]
@@ -94,38 +94,41 @@ FinalRules ==
        (w1.commit < w2.commit /\ \E t \in DOMAIN txns : txns[t].start = w2.start) =>
           LET t2 == CHOOSE t \in DOMAIN txns : txns[t].start = w2.start
               point == IF txns[t2].lockfts[k] > 0 THEN txns[t2].lockfts[k] ELSE w2.start
-          IN Check(w1.commit <= point, "two committed writers of a key overlap (lost update)", <<k, w1, w2, point>>)
+          \* a pessimistic transaction that writes a key it never locked asks the store for no conflict check on it
+          \* (pessimistic action "skip"): the protection is the application's lock, so the rule is not applied there
+          IN (txns[t2].pess /\ txns[t2].lockfts[k] = 0) \/
+             Check(w1.commit <= point, "two committed writers of a key overlap (lost update)", <<k, w1, w2, point>>)
   \* external consistency: acknowledged before the other began => visible to it
   /\ \A a \in acked : \A t \in DOMAIN txns :
        (txns[t].beginSeq > a.seq) => Check(txns[t].start >= a.commit, "a transaction began after an acknowledged commit but has a smaller start ts", <<t, a>>)
 
 (********************************** events **********************************)
-Init == pos = 1 /\ truth = EmptyProj /\ proj = EmptyProj /\ txns = <<>> /\ held = {} /\ acked = {} /\ hasTruth = FALSE /\ kind = "none"
-Unch == UNCHANGED <<truth, proj, txns, held, acked, hasTruth, kind>>
+Init == pos = 1 /\ truth = EmptyProj /\ proj = EmptyProj /\ txns = <<>> /\ held = {} /\ acked = {} /\ hasTruth = FALSE /\ kind = "none" /\ lossless = FALSE
+Unch == UNCHANGED <<truth, proj, txns, held, acked, hasTruth, kind, lossless>>
 Next ==
   /\ pos <= Len(Trace) /\ pos' = pos + 1
   /\ LET e == Ev IN
      CASE e.ev = "reset" ->
-            /\ truth' = e.truth /\ hasTruth' = e.hastruth /\ proj' = EmptyProj /\ txns' = <<>> /\ held' = {} /\ acked' = {} /\ kind' = e.kind
+            /\ truth' = e.truth /\ hasTruth' = e.hastruth /\ proj' = EmptyProj /\ txns' = <<>> /\ held' = {} /\ acked' = {} /\ kind' = e.kind /\ lossless' = e.lossless
        [] e.ev = "rpc" ->
             IF e.executed
-            THEN /\ StateRules(e.proj) /\ HeldRule(e.proj) /\ proj' = e.proj /\ UNCHANGED <<truth, txns, held, acked, hasTruth, kind>>
+            THEN /\ StateRules(e.proj) /\ HeldRule(e.proj) /\ proj' = e.proj /\ UNCHANGED <<truth, txns, held, acked, hasTruth, kind, lossless>>
             ELSE Unch
        [] e.ev = "api_call" ->
             IF e.c \in {"commit", "rollback"} /\ e.txn \in DOMAIN txns
             THEN /\ held' = {h \in held : h.t # e.txn}
                  /\ txns' = [txns EXCEPT ![e.txn].state = "ending"]
-                 /\ UNCHANGED <<truth, proj, acked, hasTruth, kind>>
+                 /\ UNCHANGED <<truth, proj, acked, hasTruth, kind, lossless>>
             ELSE Unch
        [] e.ev = "commit_buffer" ->
             \* an insert that was deleted again inside the transaction is only an existence check: it writes nothing
             /\ txns' = [txns EXCEPT ![e.txn].wrote = {e.buffer[i].k : i \in 1..Len(e.buffer)}
                                                       \ {k \in txns[e.txn].inserted : txns[e.txn].buf[k] = 0}]
-            /\ UNCHANGED <<truth, proj, held, acked, hasTruth, kind>>
+            /\ UNCHANGED <<truth, proj, held, acked, hasTruth, kind, lossless>>
        [] e.ev = "api_ret" ->
             IF e.c = "begin"
             THEN /\ (IF e.class = "nil" THEN txns' = Ext(txns, e.txn, NewTxn(e.client, e.start, e.pess, e.seq)) ELSE UNCHANGED txns)
-                 /\ UNCHANGED <<truth, proj, held, acked, hasTruth, kind>>
+                 /\ UNCHANGED <<truth, proj, held, acked, hasTruth, kind, lossless>>
             ELSE IF e.c = "recovery_read"
             THEN /\ Unch
                  \* a reader after the crash sees, for every transaction, all of its writes or none of them
@@ -156,31 +159,31 @@ Next ==
                             THEN txns' = [txns EXCEPT ![t].buf[req.k] = IF e.c = "delete" THEN 0 ELSE req.v,
                                                       ![t].inserted = IF e.c = "insert" THEN @ \cup {req.k} ELSE @]
                             ELSE UNCHANGED txns)
-                        /\ UNCHANGED <<truth, proj, held, acked, hasTruth, kind>>
+                        /\ UNCHANGED <<truth, proj, held, acked, hasTruth, kind, lossless>>
                 [] e.c = "lock" ->
                      LET req == e
                      IN IF e.class = "nil"
                         THEN /\ txns' = [txns EXCEPT ![t].lockfts = [k \in Key |-> IF k \in SetOf(req.ks) /\ @[k] = 0 THEN e.fts ELSE @[k]]]
                              /\ held' = held \cup {[t |-> t, k |-> k] : k \in SetOf(req.ks)}
-                             /\ UNCHANGED <<truth, proj, acked, hasTruth, kind>>
+                             /\ UNCHANGED <<truth, proj, acked, hasTruth, kind, lossless>>
                              \* a locking read returns the newest committed value
                              /\ \A i \in 1..Len(e.vals) : Check(e.vals[i].val = Visible(proj, e.vals[i].k, MaxTs),
                                                                "locking read did not return the newest committed value", <<t, e.vals[i], Visible(proj, e.vals[i].k, MaxTs)>>)
-                        ELSE /\ txns' = [txns EXCEPT ![t].lockfail = TRUE] /\ UNCHANGED <<truth, proj, held, acked, hasTruth, kind>>
+                        ELSE /\ txns' = [txns EXCEPT ![t].lockfail = TRUE] /\ UNCHANGED <<truth, proj, held, acked, hasTruth, kind, lossless>>
                 [] e.c = "commit" ->
                      /\ txns' = [txns EXCEPT ![t].state = "ended", ![t].commit = e.commit,
                                              ![t].ack = CASE e.class = "nil" -> "nil" [] e.class = "undetermined" -> "undetermined"
                                                           [] e.class = "crashed" -> "none" [] OTHER -> "other"]
                      /\ acked' = IF e.class = "nil" /\ T.wrote # {} THEN acked \cup {[seq |-> e.seq, commit |-> e.commit]} ELSE acked
-                     /\ UNCHANGED <<truth, proj, held, hasTruth, kind>>
+                     /\ UNCHANGED <<truth, proj, held, hasTruth, kind, lossless>>
                 [] e.c = "rollback" ->
                      /\ txns' = [txns EXCEPT ![t].state = "ended", ![t].ack = "rollback"]
-                     /\ UNCHANGED <<truth, proj, held, acked, hasTruth, kind>>
+                     /\ UNCHANGED <<truth, proj, held, acked, hasTruth, kind, lossless>>
                 [] OTHER -> Unch
        [] e.ev = "drained" ->
             /\ Unch
             \* C06: without waiting for any expiry, no lock of an ended transaction is left once the background work has drained
-            /\ (e.ok /\ kind \in {"c01", "c06"}) =>
+            /\ (e.ok /\ lossless) =>
                   \A t \in DOMAIN txns : txns[t].state = "ended" /\ txns[t].ack # "none" =>
                      \A k \in Key : Check(e.proj.lock[k].ts # txns[t].start, "a lock of a finished transaction is left behind", <<t, k, e.proj.lock[k]>>)
        [] e.ev = "final" -> Unch /\ FinalRules
